@@ -45,6 +45,10 @@ CHECKS = {
             "technique": "fault enumeration over build-tag hooks at the syscall helpers of pkg/filesystem, driven by rapid-generated trees and plans; oracle = independent cold scan vs reported results",
             "note": "Faults are fail-before-effect at the hooked helpers (openat, mkdirat, renameat, renameat2, unlinkat, fstat, fchmod, fstatat, fchmodat, fchownat, symlinkat, readlinkat, chown/chmod by path); reads/writes of file data and getdents are not hooked; the post-transition cold scan is trusted (C12).",
             "text": "Each generated plan is executed fault-free, then once per hooked filesystem call with that call failing, once per call with cancellation at that call, and again with a forced cross-device rename; a real tmpfs staging directory and missing staged files are included. After every run a cold scan must equal the pre-scan with the reported results substituted, and no temporary file may be left behind."},
+    "C08": {"level": "exploration", "steps": [step("./c08_interloper/", shards={"thorough": 8}, timeout={"quick": 900, "thorough": 5400})],
+            "technique": "property-based testing (rapid) on a real filesystem with an interloper editing between scan and transition; oracle = independent lstat/readlink/read walk before and after",
+            "note": "The interloper acts between the scan and the transition call (not during it): the documented check-to-use race window inside a transition is out of scope. Runs as root on ext4.",
+            "text": "For random trees and plans, 1-3 modifications of every kind the statement lists are applied after the scan; each modified object covered by a transition must still be there afterwards with identical lstat identity, bytes or target, must be reported as a problem, and transitions that were not interfered with must complete."},
     "C06": {"level": "exploration", "steps": RECONCILE(), "technique": PBT, "note": TREE_NOTE,
             "text": "Same enumeration: no two actions on equal or nested paths, every action sits at a first disagreement found by an independent walker, conflicts have changes on both sides within their root."},
 }
